@@ -312,6 +312,40 @@ def r12_7(ctx, fx):
             else:
                 ctx.violation(rid, inst, f.where(a), "`%s` was computed with the properties in `%s`, `%s` keeps its properties in `%s`: the assignment copies the value only, so the OPEN / SPECIAL flag of the bound that lost the comparison stays attached to the one that won" % (r, ", ".join(sorted(pair[r])), l, ", ".join(sorted(pair[l]))))
     ctx.ok(rid, "positive example reported (%d plain moves without properties)" % len(hits), "drivers/positive_r12_7.cc")
+    # (b) the users of Interval: a bound of one interval is never copied into a bound of another by `a.lower() = b.lower()`
+    ux = ctx.extract([F.driver_unit("all_headers.cc", file_re=r"(Box_(inlines|templates)|Polyhedron_templates|Linear_Form_templates|Float_templates)\.hh")])
+    acc = re.compile(r"^\w+\.(lower|upper)\(\)$")
+    seen = set()
+    users = 0
+    raw = 0
+    for g in pos.functions:
+        for a in g.walk():
+            if a["k"] in ("assign", "ocall") and (a["k"] != "ocall" or a.get("op") == "="):
+                cs = [g.deref(x) for x in a["c"]][-2:]
+                if len(cs) == 2 and None not in cs and acc.match(g.text(cs[0]).replace(" ", "")) and acc.match(g.text(cs[1]).replace(" ", "")):
+                    raw += 1
+    ctx.require(rid, raw >= 1, "the positive example of a bound copied between two intervals (drivers/positive_r12_7.cc) is no longer reported: the rule is blind")
+    for f in ux.functions:
+        if (f.relfile, f.line) in seen or not f.flag("pattern"):
+            continue
+        seen.add((f.relfile, f.line))
+        touched = False
+        for a in f.walk():
+            if a["k"] == "mcall" or a["k"] == "call":
+                if f.call_name(a) in ("lower", "upper"):
+                    touched = True
+            if a["k"] not in ("assign", "ocall") or (a["k"] == "ocall" and a.get("op") != "="):
+                continue
+            cs = [f.deref(x) for x in a["c"]][-2:]
+            if len(cs) != 2 or cs[0] is None or cs[1] is None:
+                continue
+            l, r = f.text(cs[0]).replace(" ", ""), f.text(cs[1]).replace(" ", "")
+            if acc.match(l) and acc.match(r):
+                n += 1
+                ctx.violation(rid, "%s `%s = %s` (line %s)" % (f.name, l, r, a.get("l")), f.where(a), "the value of the bound `%s` is copied into `%s` by a plain assignment: its OPEN / SPECIAL properties stay behind, so an open bound of the source becomes a closed one (or the reverse) in the destination" % (r, l))
+        users += touched
+    ctx.count(rid, "functions outside Interval that read or write interval bounds", users)
+    ctx.floor(rid, users, 15, "functions outside Interval that read or write interval bounds")
     return n
 
 
